@@ -1,34 +1,158 @@
-(** C08 — how many final answers a worker gives to one request, computed from
-    the generated arms table (C08/Gen.v); and the response stream of a whole
-    request sequence.  No proofs here. *)
-From Coq Require Import List String Bool Arith.
+(** C08 — executable model of a worker's command handling
+    (lib/src/server.rs: read_channel_messages_and_notify, notify,
+    notify_proxys, shut_down_sessions), driven by the arms table generated
+    from the source (C08/Gen.v).
+
+    Abstract: the configuration view and [ConfigState::dispatch] (shared with
+    the main process: same function), the request payload, and everything a
+    proxy decides — which control-flow path an arm takes, the status it
+    answers, whether a listener could be added / deactivated.  These are the
+    [oracle] of each request; theorems quantify over all of them.
+    No proofs in this file. *)
+From Coq Require Import List String Bool Arith ZArith.
 From SV Require Import C08.Base C08.Gen.
 Import ListNotations.
+Open Scope string_scope.
+Open Scope list_scope.
 
-(** control flow of read_channel_messages_and_notify -> notify -> notify_proxys *)
-Definition answers (fallback : bool) (a : arm_row) : nat :=
-  if special a then 1 else
-  (if wl_push a then 1 else 0) +
-  (if wl_falls a then
-     (if early_push a then 1 else 0) +
-     (if early_falls a then
-        (if Nat.ltb 0 (dests a) then 1 else 0) + late_push a +
-        (if fallback && Nat.eqb (dests a) 0 && Nat.eqb (late_push a) 0 then 1 else 0)
-      else 0)
-   else 0).
+Inductive status := SOk | SFailure | SProcessing.
 
-Definition lookup (name : string) : option arm_row :=
-  find (fun a => String.eqb (a_name a) name) arms_table.
+Record response := mkResp { p_id : nat; p_status : status }.
 
-(** a request without request_type matches no arm anywhere and has no destination *)
-Definition none_row : arm_row := mkArm "None" false true false true 0 0 false.
+Definition is_final (p : response) : bool :=
+  match p_status p with SProcessing => false | _ => true end.
 
-Definition answers_of (name : string) : nat :=
-  match lookup name with
-  | Some a => answers fallback_answers a
-  | None => answers fallback_answers none_row
-  end.
+Section worker.
+  Variable view : Type.
+  Variable payload : Type.
+  (** the state after [ConfigState::dispatch], whatever its result *)
+  Variable dispatch : view -> string -> payload -> view.
 
-(** the final answers a worker emits for a sequence of requests (id, variant) *)
-Definition stream (reqs : list (nat * string)) : list nat :=
-  flat_map (fun r => repeat (fst r) (answers_of (snd r))) reqs.
+  Record request := mkReq { r_id : nat; r_name : string; r_payload : payload }.
+
+  (** what the code around the control flow decides for one request *)
+  Record oracle := mkOr {
+    o_p0 : nat; o_p1 : nat; o_p2 : nat; o_p4 : nat;   (* which path of each arm *)
+    o_fail : nat -> bool;          (* the k-th answer is a failure (else OK) *)
+    o_applied : bool;              (* config_state.dispatch returned Ok *)
+    o_listener : bool;             (* the proxy could add / give back the listener *)
+  }.
+
+  Record worker := mkW {
+    w_view : view;
+    w_base : Z;                    (* base_sessions_count *)
+    w_slots : nat;                 (* listen and system slots in the session slab *)
+    w_stopping : option nat;       (* shutting_down: id of the SoftStop being served *)
+    w_alive : bool;
+  }.
+
+  Definition lookup (name : string) : option arm_row :=
+    find (fun a => String.eqb (a_name a) name) arms_table.
+
+  (** a request without request_type, or of a variant the table does not know,
+      matches the default arm everywhere and has no destination *)
+  Definition none_row : arm_row := mkRow "None" None [(0, false)] [(0, false)] 0 None.
+
+  Definition row_of (name : string) : arm_row :=
+    match lookup name with Some a => a | None => none_row end.
+
+  Definition pick (i : nat) (ps : list path) : path := nth i ps (hd (0, false) ps).
+
+  Definition is_stop (name : string) : bool := (name =? "SoftStop") || (name =? "HardStop").
+  Definition is_add_listener (name : string) : bool :=
+    (name =? "AddHttpListener") || (name =? "AddHttpsListener") || (name =? "AddTcpListener") || (name =? "AddUdpListener").
+
+  (** k answers with the request's id, numbered from [from]; [proc] marks the
+      positions that are Processing notices (the proxies' answer to a stop) *)
+  Fixpoint answers (id : nat) (o : oracle) (from k : nat) : list response :=
+    match k with
+    | 0 => []
+    | S k' => mkResp id (if o_fail o from then SFailure else SOk) :: answers id o (S from) k'
+    end.
+
+  (** the session-table bookkeeping of the listener verbs *)
+  Definition bookkeep (w : worker) (name : string) (o : oracle) : worker :=
+    if is_add_listener name then
+      if o_listener o then mkW (w_view w) (w_base w + 1) (S (w_slots w)) (w_stopping w) (w_alive w) else w
+    else if name =? "DeactivateListener" then
+      if o_listener o then mkW (w_view w) (w_base w) (pred (w_slots w)) (w_stopping w) (w_alive w) else w
+    else if name =? "RemoveListener" then
+      if o_applied o then mkW (w_view w) (w_base w - 1) (w_slots w) (w_stopping w) (w_alive w) else w
+    else w.
+
+  Definition set_view (w : worker) (v : view) : worker :=
+    mkW v (w_base w) (w_slots w) (w_stopping w) (w_alive w).
+
+  (** notify + notify_proxys: the worker afterwards, the number of push_queue
+      calls before the proxies' aggregated answer, whether that aggregated
+      answer is pushed, the number after it *)
+  Definition notify (w : worker) (r : request) (o : oracle) : worker * (nat * bool * nat) :=
+    let row := row_of (r_name r) in
+    let '(n1, ret1) := pick (o_p1 o) (s1 row) in
+    if ret1 then (w, (n1, false, 0)) else
+    let w1 := set_view w (dispatch (w_view w) (r_name r) (r_payload r)) in
+    let '(n2, ret2) := pick (o_p2 o) (s2 row) in
+    if ret2 then (w1, (n1 + n2, false, 0)) else
+    let agg := Nat.ltb 0 (dests row) in
+    let n4 := match s4 row with
+              | Some ps => fst (pick (o_p4 o) ps)
+              | None => if fallback_answers && negb agg then 1 else 0
+              end in
+    (bookkeep w1 (r_name r) o, (n1 + n2, agg, n4)).
+
+  Definition emit (r : request) (o : oracle) (c : nat * bool * nat) : list response :=
+    let '(a, agg, b) := c in
+    answers (r_id r) o 0 a ++
+    (if agg then [mkResp (r_id r) (if is_stop (r_name r) then SProcessing
+                                   else if o_fail o a then SFailure else SOk)] else []) ++
+    answers (r_id r) o (S a) b.
+
+  (** read_channel_messages_and_notify, one request *)
+  Definition handle (w : worker) (r : request) (o : oracle) : worker * list response :=
+    if negb (w_alive w) then (w, []) else
+    match s0 (row_of (r_name r)) with
+    | Some ps => (w, answers (r_id r) o 0 (fst (pick (o_p0 o) ps)))
+    | None =>
+      if r_name r =? "HardStop" then
+        let '(w1, c) := notify w r o in
+        (mkW (w_view w1) (w_base w1) (w_slots w1) (w_stopping w1) false,
+         emit r o c ++ [mkResp (r_id r) SOk])
+      else if r_name r =? "SoftStop" then
+        let w0 := mkW (w_view w) (w_base w) (w_slots w) (Some (r_id r)) (w_alive w) in
+        let '(w1, c) := notify w0 r o in (w1, emit r o c)
+      else
+        let '(w1, c) := notify w r o in (w1, emit r o c)
+    end.
+
+  Inductive event :=
+  | EReq (r : request) (o : oracle)
+  | EDrained.                    (* shut_down_sessions: only listen/system slots remain *)
+
+  Definition step (w : worker) (e : event) : worker * list response :=
+    match e with
+    | EReq r o => handle w r o
+    | EDrained =>
+      if w_alive w then
+        match w_stopping w with
+        | Some id => (mkW (w_view w) (w_base w) (w_slots w) None false, [mkResp id SOk])
+        | None => (w, [])
+        end
+      else (w, [])
+    end.
+
+  Fixpoint run (w : worker) (es : list event) : worker * list response :=
+    match es with
+    | [] => (w, [])
+    | e :: rest =>
+      let '(w1, o1) := step w e in
+      let '(w2, o2) := run w1 rest in
+      (w2, o1 ++ o2)
+    end.
+End worker.
+
+Arguments mkReq {payload}. Arguments r_id {payload}. Arguments r_name {payload}. Arguments r_payload {payload}.
+Arguments mkW {view}. Arguments w_view {view}. Arguments w_base {view}. Arguments w_slots {view}.
+Arguments w_stopping {view}. Arguments w_alive {view}.
+Arguments EReq {payload}. Arguments EDrained {payload}.
+Arguments bookkeep {view}. Arguments set_view {view}. Arguments emit {payload}.
+Arguments notify {view payload}. Arguments handle {view payload}. Arguments step {view payload}. Arguments run {view payload}.
